@@ -481,6 +481,9 @@ pub struct ParserState<'i, R: RuleType> {
     /// Helper structure tracking `Stack` status (used in case grammar contains stack PUSH/POP
     /// invocations).
     stack: Stack<SpanOrLiteral<'i>>,
+    /// Tags that `tag_node` put on tokens while a checkpoint was open: (number of open
+    /// checkpoints, token index, previous tag). Undone when that checkpoint is restored.
+    tag_journal: Vec<(usize, usize, Option<&'i str>)>,
     /// Used for setting max parser calls limit.
     call_tracker: CallLimitTracker,
     /// Together with tracking of `pos_attempts` and `attempt_pos`
@@ -579,6 +582,7 @@ impl<'i, R: RuleType> ParserState<'i, R> {
             attempt_pos: 0,
             atomicity: Atomicity::NonAtomic,
             stack: Stack::new(),
+            tag_journal: vec![],
             call_tracker: Default::default(),
             parse_attempts: ParseAttempts::new(),
         })
@@ -831,7 +835,12 @@ impl<'i, R: RuleType> ParserState<'i, R> {
         if self.lookahead != Lookahead::None {
             return Ok(self);
         }
+        let open_checkpoints = self.stack.snapshots();
+        let index = self.queue.len().saturating_sub(1);
         if let Some(QueueableToken::End { tag: old, .. }) = self.queue.last_mut() {
+            if open_checkpoints > 0 {
+                self.tag_journal.push((open_checkpoints, index, *old));
+            }
             *old = Some(tag)
         }
         Ok(self)
@@ -937,7 +946,7 @@ impl<'i, R: RuleType> ParserState<'i, R> {
                 // Restore the initial position and truncate the token queue.
                 new_state.position = initial_pos;
                 new_state.queue.truncate(token_index);
-                Err(new_state.restore())
+                Err(new_state.restore_with_tags())
             }
         }
     }
@@ -1791,15 +1800,57 @@ impl<'i, R: RuleType> ParserState<'i, R> {
     // so remove it without touching other stack state.
     #[inline]
     pub(crate) fn checkpoint_ok(mut self: Box<Self>) -> Box<Self> {
+        let open = self.stack.snapshots();
         self.stack.clear_snapshot();
+        self.close_tag_scope(open, false);
         self
     }
 
     // Restore the current state to the most recent checkpoint.
     #[inline]
     pub(crate) fn restore(mut self: Box<Self>) -> Box<Self> {
+        let open = self.stack.snapshots();
         self.stack.restore();
+        self.close_tag_scope(open, false);
         self
+    }
+
+    // Restore the current state to the most recent checkpoint and take back the tags that
+    // `tag_node` has set since it was taken (a failed `sequence` leaves the tokens as they were).
+    #[inline]
+    pub(crate) fn restore_with_tags(mut self: Box<Self>) -> Box<Self> {
+        let open = self.stack.snapshots();
+        self.stack.restore();
+        self.close_tag_scope(open, true);
+        self
+    }
+
+    // The innermost of `open` checkpoints has just been closed: the tags journaled under it are
+    // either undone or handed to the enclosing checkpoint.
+    fn close_tag_scope(&mut self, open: usize, undo: bool) {
+        if self.tag_journal.is_empty() || open == 0 {
+            return;
+        }
+        if undo {
+            while let Some(&(depth, index, old)) = self.tag_journal.last() {
+                if depth < open {
+                    break;
+                }
+                self.tag_journal.pop();
+                if let Some(QueueableToken::End { tag, .. }) = self.queue.get_mut(index) {
+                    *tag = old;
+                }
+            }
+        } else if open == 1 {
+            self.tag_journal.clear();
+        } else {
+            for entry in self.tag_journal.iter_mut().rev() {
+                if entry.0 < open {
+                    break;
+                }
+                entry.0 = open - 1;
+            }
+        }
     }
 }
 
